@@ -370,44 +370,42 @@ struct mdarray {
     constexpr auto to_mdspan() -> mdspan<T, E, L> { return mdspan<T, E, L>(c.data(), m); }
 };
 
-// submdspan_extents for slices that are full_extent_t or a single index
+// submdspan_extents for slices that are full_extent_t or a single index: keep, in order, the dimensions
+// sliced with full_extent (and whether they were static)
 namespace detail {
 template <typename S>
 inline constexpr bool is_full = std::is_convertible_v<S, full_extent_t>;
 
-template <typename I, typename Seq, size_t... Kept>
-struct sub_type;
-template <typename I, size_t... Kept>
-struct sub_type<I, std::index_sequence<>, Kept...> {
-    using type = extents<I, Kept...>;
+template <typename I, typename Acc, typename FullSeq, typename EsSeq>
+struct sub_ext;
+template <typename I, size_t... A>
+struct sub_ext<I, std::index_sequence<A...>, std::integer_sequence<bool>, std::index_sequence<>> {
+    using type = extents<I, A...>;
 };
+template <typename I, size_t... A, bool F, bool... Fs, size_t E, size_t... Es>
+struct sub_ext<I, std::index_sequence<A...>, std::integer_sequence<bool, F, Fs...>, std::index_sequence<E, Es...>>
+    : sub_ext<I, std::conditional_t<F, std::index_sequence<A..., E>, std::index_sequence<A...>>, std::integer_sequence<bool, Fs...>,
+              std::index_sequence<Es...>> { };
 } // namespace detail
 
 template <typename I, size_t... Es, typename... Slices>
     requires(sizeof...(Slices) == sizeof...(Es))
 constexpr auto submdspan_extents(extents<I, Es...> const& e, Slices... /*slices*/)
 {
-    constexpr size_t N        = sizeof...(Es);
-    constexpr bool full[N ? N : 1] = {detail::is_full<Slices>...};
-    constexpr size_t stat[N ? N : 1] = {Es...};
-    constexpr size_t nkept    = ((detail::is_full<Slices> ? 1U : 0U) + ... + 0U);
-    // positions of the kept dimensions
-    constexpr auto kept = [&] {
-        array<size_t, nkept ? nkept : 1> k{};
-        size_t j = 0;
-        for (size_t r = 0; r < N; ++r) {
-            if (full[r]) { k[j++] = r; }
-        }
-        return k;
-    }();
-    return [&]<size_t... J>(std::index_sequence<J...>) {
-        using R = extents<I, stat[kept[J]]...>;
-        if constexpr (nkept == 0) {
-            return R{};
-        } else {
-            return R(array<I, nkept>{e.extent(kept[J])...});
-        }
-    }(std::make_index_sequence<nkept>{});
+    using R = typename detail::sub_ext<I, std::index_sequence<>, std::integer_sequence<bool, detail::is_full<Slices>...>,
+                                       std::index_sequence<Es...>>::type;
+    constexpr size_t N = sizeof...(Es);
+    bool const full[N ? N : 1] = {detail::is_full<Slices>...};
+    array<I, R::rank()> kept{};
+    size_t j = 0;
+    for (size_t r = 0; r < N; ++r) {
+        if (full[r]) { kept[j++] = e.extent(r); }
+    }
+    if constexpr (R::rank() == 0) {
+        return R{};
+    } else {
+        return R(kept);
+    }
 }
 
 } // namespace ref
